@@ -212,6 +212,19 @@ def scale_factor(rng):
             return c
 
 
+def scale_factor_any(rng):
+    """as scale_factor, or (half of the time) an arbitrary double: c*phi is then rounded, as it is for real mode shapes."""
+    if rng.random() < 0.5:
+        return scale_factor(rng)
+    while True:
+        c = complex(rng.normal(), rng.normal()) * 10.0 ** rng.uniform(-6, 6)
+        if 1e-6 <= abs(c) <= 1e6:
+            return c
+
+
+COMPLEX_TAGS = ("circular", "circular-exact", "expi-theta", "const-modulus", "one-nonzero", "two-nonzero")
+
+
 def gen_shape(rng, n, tag):
     """-> (phi, extra dict)"""
     if tag == "random":
@@ -257,6 +270,36 @@ def gen_shape(rng, n, tag):
         if not phi.any():
             phi[0] = 1
         return phi * 2.0 ** -int(rng.integers(10, 41)), {}
+    # ---- the opposite extreme to the collinear family: maximally complex shapes (degenerate covariance eigenvalues)
+    if tag in ("circular", "circular-exact"):
+        if (tag == "circular-exact" or rng.random() < 0.4) and n >= 4:
+            # exact over the Gaussian integers: blocks (a, b, -a, -b) + i (-b, a, b, -a); Im is Re turned by an orthogonal map:
+            # equal variances, zero covariance, zero means  =>  MPC = 0 and MCF = 1 exactly; padded with zero components
+            phi = np.zeros(n, dtype=complex)
+            for m in range(n // 4):
+                while True:
+                    a, b = float(rng.integers(-8, 9)), float(rng.integers(-8, 9))
+                    if a or b:
+                        break
+                phi[4 * m : 4 * m + 4] = np.array([a, b, -a, -b]) + 1j * np.array([-b, a, b, -a])
+            if rng.random() < 0.5:
+                phi = phi[rng.permutation(n)]
+            return phi, dict(exact_circular=True)
+        j = 1 if (n < 4 or rng.random() < 0.6) else int(rng.integers(1, n))
+        return np.exp(2j * np.pi * j * np.arange(n) / n), {}  # travelling wave exp(2 pi i j k / n) (witness floats)
+    if tag == "expi-theta":
+        theta = float(rng.choice([0.1, 0.5, 0.7, 1.0, 2.0, 2.5, np.pi / 3, np.pi / 2, 2.399963229728653, 3.0]))
+        return np.exp(1j * theta * np.arange(n)), dict(theta=theta)
+    if tag == "const-modulus":
+        if rng.random() < 0.5:  # exact: unit Gaussian integers times one dyadic modulus
+            return rng.choice(np.array([1, 1j, -1, -1j]), size=n) * (float(rng.integers(1, 33)) / 8.0), {}
+        return (float(rng.integers(1, 33)) / 8.0) * np.exp(2j * np.pi * rng.random(n)), {}
+    if tag in ("one-nonzero", "two-nonzero"):
+        phi = np.zeros(n, dtype=complex)
+        for k in rng.choice(n, size=min(n, 1 if tag == "one-nonzero" else 2), replace=False):
+            while phi[k] == 0:
+                phi[k] = complex(rng.integers(-64, 65), rng.integers(-64, 65)) / 16.0
+        return phi, {}
     if tag == "zero-vector":
         return np.zeros(n, dtype=complex), {}
     raise ValueError(tag)
@@ -591,7 +634,9 @@ class Runner:
 
 def run(ctx):
     rng = ctx.np_rng
-    ctx.extra["rule"] = ("cases = single shapes (random / exactly collinear / zero components / unit-normalised / nearly collinear, each with a scale "
+    ctx.extra["rule"] = ("cases = single shapes (random / exactly collinear / zero components / unit-normalised / nearly collinear / maximally complex: "
+                         "travelling waves exp(2 pi i k/n), exp(i k theta), exact equal-variance zero-covariance blocks, constant modulus, one or two "
+                         "non-zero components; each with a scale "
                          "factor 2^k * Gaussian rational), pairs of shape sets for MAC (non-square, ~15% malformed), MSF pairs; non-trivial = "
                          "not the zero vector / not a dimension mismatch; distinct by hash of the inputs; every stream also in other storage forms "
                          "(int32/int64/float32/complex64 arrays, (n,1) columns, mixed dtypes between the two arguments; lists are rejected by all five functions)")
@@ -625,12 +670,22 @@ def run(ctx):
         return int(rng.integers(13, nmax + 1))
 
     # ---- single shapes
-    tags = ["random"] * 5 + ["collinear"] * 6 + ["zeros"] * 3 + ["unit"] * 3 + ["near"] * 3 + ["tiny"] * 2 + ["zero-vector"] * 1
-    for _ in range(ctx.n(240, 1500)):
+    tags = (["random"] * 5 + ["collinear"] * 6 + ["zeros"] * 3 + ["unit"] * 3 + ["near"] * 3 + ["tiny"] * 2
+            + ["circular"] * 3 + ["expi-theta"] * 2 + ["const-modulus"] * 2 + ["one-nonzero"] + ["two-nonzero"] + ["zero-vector"] * 1)
+    # travelling waves exp(2 pi i k/n) for every n, each under several scale factors (degenerate eigenvalues of the covariance)
+    for n in (range(3, 13) if ctx.quick() else list(range(3, 33)) + [40, 48, 56, 63, 64]):
+        for rep in range(3):
+            phi, extra = gen_shape(rng, n, "circular-exact" if (rep == 2 and n % 4 == 0) else "circular")
+            if rep == 0:
+                phi = np.exp(2j * np.pi * np.arange(n) / n)
+                extra = {}
+            c = scale_factor_any(rng)
+            R.shape(dict(kind="shape", tag="circular", phi=cv(phi), c=[c.real, c.imag], **extra))
+    for _ in range(ctx.n(280, 1700)):
         tag = tags[int(rng.integers(0, len(tags)))]
         n = pick_n()
         phi, extra = gen_shape(rng, n, tag)
-        c = scale_factor(rng)
+        c = scale_factor_any(rng) if tag in COMPLEX_TAGS else scale_factor(rng)
         R.shape(dict(kind="shape", tag=tag, phi=cv(phi), c=[c.real, c.imag], form=pick_form(rng, False, 0.2), **extra))
     # ---- MAC between sets (deliberately non-square)
     for k in range(ctx.n(90, 500)):
@@ -664,10 +719,16 @@ def run(ctx):
         elif u < 0.2:
             v = real_vec(rng, n).astype(complex)
             tag = "real"
-        elif u < 0.3:
+        elif u < 0.32:  # maximally complex / sparse shapes in their exactly representable variants
+            tag = ["circular-exact", "const-modulus", "one-nonzero", "two-nonzero"][int(rng.integers(0, 4))]
+            v, _ = gen_shape(rng, n, tag)
+            if tag == "const-modulus":
+                v = np.round(v * 8.0 / max(abs(v[0]), 1e-300)) / 8.0 * 1.0  # back onto the dyadic grid (unit Gaussian integers or rounded phases)
+                v[v == 0] = 1.0
+        elif u < 0.4:
             v, _ = gen_shape(rng, n, "zeros")
             tag = "zeros"
-        elif u < 0.4:
+        elif u < 0.48:
             v, _ = gen_shape(rng, n, "unit")
             tag = "unit"
         else:
